@@ -312,6 +312,7 @@ type device struct {
 	naccpt int
 	wg     sync.WaitGroup
 	done   chan struct{}
+	once   sync.Once
 }
 
 func newDevice(key string, conns [][]reaction) (*device, error) {
@@ -402,7 +403,11 @@ func (d *device) handle(c net.Conn, j int, script []reaction) {
 		script = script[1:]
 		for _, pc := range r.pieces {
 			if pc.delay > 0 {
-				time.Sleep(time.Duration(pc.delay))
+				select {
+				case <-time.After(time.Duration(pc.delay)):
+				case <-d.done: // the session is over: nobody waits for this reply any more
+					return
+				}
 			}
 			if _, err := c.Write(pc.data); err != nil {
 				return
@@ -415,6 +420,7 @@ func (d *device) handle(c net.Conn, j int, script []reaction) {
 }
 func (d *device) close() {
 	d.ln.Close()
+	d.once.Do(func() { close(d.done) })
 	d.wg.Wait()
 }
 
@@ -459,7 +465,7 @@ func runSession(sc sessionCase) sessionResult {
 		return sessionResult{results: []string{"NEWCLIENT-ERR"}}
 	}
 	if sc.mode == "attach" && len(sc.conns) > 0 {
-		cl.VerifAttachConn(&scriptConn{j: 0, t: tr, script: sc.conns[0], budget: -1})
+		attachConn(cl, &scriptConn{j: 0, t: tr, script: sc.conns[0], budget: -1})
 	}
 	var res sessionResult
 	for ci, call := range sc.calls {
